@@ -606,6 +606,16 @@ func (x *fx) evalCall(e *Expr, env *specEnv) *Val {
 			// fresh(x): x was allocated by this activation (not reachable from the caller's state)
 			v := x.eval(args[0], env)
 			return &Val{T: tBool, S: "(>= " + x.refOf(v) + " " + x.top0 + ")"}
+		case "deref":
+			p := x.eval(args[0], env)
+			if _, ok := p.T.Underlying().(*types.Pointer); !ok {
+				panic(specErr("deref of non-pointer " + p.T.String()))
+			}
+			m := env.mem
+			if p.M != nil {
+				m = p.M
+			}
+			return x.load(m, p)
 		case "disjoint":
 			a, b := x.eval(args[0], env), x.eval(args[1], env)
 			return &Val{T: tBool, S: "(not (= " + x.refOf(a) + " " + x.refOf(b) + "))"}
@@ -764,6 +774,24 @@ func (x *fx) pureFnCall(fv *Val, sig *types.Signature, args []*Val) *Val {
 // assumeFnSpec adds the axioms of a named function spec for a func-typed parameter.
 func (x *fx) assumeFnSpec(pname, spec string) {
 	var fv *Val
+	if pk, fname, ok := strings.Cut(pname, "."); ok {
+		// a package-level function of an imported package declared pure, e.g. bytes.Compare
+		for _, imp := range x.fn.Pkg.Pkg.Imports() {
+			if imp.Name() == pk {
+				if fo, ok := imp.Scope().Lookup(fname).(*types.Func); ok {
+					fv = &Val{T: fo.Type(), S: fmt.Sprint(x.g.funcIDByName(fo.FullName()))}
+				}
+			}
+		}
+		if fv == nil {
+			panic(specErr("fnspec: no function " + pname))
+		}
+		for _, f := range x.fnSpecAxioms(fv, spec) {
+			x.assume(f)
+		}
+		x.assumptions[pname+" is a pure "+spec] = true
+		return
+	}
 	for _, p := range x.fn.Params {
 		if p.Name() == pname {
 			fv = x.vals[p]
